@@ -7,8 +7,13 @@ Property theorems about the model of `pkg/archive/BooleanArchive.go`
 (`Crem/Model/BoolArchive.lean`) and of the action order of a model instance
 (`Crem/Model/ActionOrder.lean`).  All sizes (not only 1..200; in particular sizes
 that are not multiples of 64 and sizes above 64), all bit patterns, all
-operation histories, all gathering orders.  Every `theorem` in this file is
-audited by `./check C09` (`#print axioms`).
+histories of `SetValue` / `Value` (natural-number and Go `int` indices, negative ones
+included) / `Encoding` / `Decode` (every text, except the *partially written* failing
+`Decode` characterised by `validOp_false_iff`: more than 64 entries, first entry good, a
+later one bad), all gathering orders.  Every `theorem` in this file is audited by
+`./check C09` (`#print axioms`).  "Same decision-variable values" after a transfer is the
+composition with C01 in `Properties/Compose.lean` (`saved_row_is_run_valuation`, audited by
+`./check C09` as well).
 
 Reading guide: `encode` / `decode n` are the abstract spec on `List Bool`;
 `Archive` with `setValue`, `value`, `encoding`, `decodeC`, `isEquivalentTo` is the
@@ -40,10 +45,12 @@ theorem encode_injective (a b : List Bool) (hl : a.length = b.length) :
 
 /-! ## the Go data structure refines the spec -/
 
-/-- for every sequence of `SetValue` / `Value` / `Encoding` / `Decode`(well-formed text)
-calls on a fresh archive of any size, every answer of the concrete model (`+mask`/`-mask`
-words, memoised text, overwrite-then-clear decode, panics on `index >= size`) is the
-answer of the spec -/
+/-- for every sequence of `SetValue` / `Value` (index a natural number or any Go `int`) /
+`Encoding` / `Decode` calls on a fresh archive of any size, every answer of the concrete model
+(`+mask`/`-mask` words, memoised text, overwrite-then-clear decode, panics on `index >= size`, the
+silent no-op on indices `-63..-1`) is the answer of the spec.  `Decode` arguments: every text the spec
+accepts AND every failing text (wrong entry count, bad first entry, anything at all for sizes up to 64)
+except a partial write (`validOp`, characterised exactly by `validOp_false_iff`) -/
 theorem refines (n : Nat) (ops : List Op) (hv : ∀ op ∈ ops, validOp n op = true) :
     runC (new n) ops = runA (List.replicate n false) ops :=
   runC_eq_runA (new n) _ (sim_new n) ops (by simpa using hv)
@@ -67,6 +74,84 @@ theorem invariant_reachable (n : Nat) (ops : List Op) (hv : ∀ op ∈ ops, vali
   rcases h.1.cache with hc | hc
   · exact Or.inl hc
   · exact Or.inr (by rw [hc, encodeLoop_eq_encode _ h.1.len h.1.high])
+
+/-! ### failing `Decode`s: which are inside the refinement, and what the others leave behind -/
+
+/-- for archives of at most 64 entries (one word: every dataset shipped with crem) NO operation is
+excluded: `refines`, `refines_from` and `invariant_reachable` hold for every history whatsoever -/
+theorem validOp_of_le_64 (n : Nat) (hn : n ≤ 64) (op : Op) : validOp n op = true := by
+  cases op <;> simp [validOp, partialWrite_false_of_le n hn]
+
+/-- the excluded operations, exactly: a `Decode` whose text has the right number of entries, at least
+two of them, whose first entry parses and one of whose later entries does not.  In particular the
+archive has more than 64 entries -/
+theorem validOp_false_iff (n : Nat) (op : Op) :
+    validOp n op = false ↔
+      ∃ t e e' es, op = .decode t ∧ splitOn ':' t = e :: e' :: es ∧ es.length + 2 = nWords n ∧
+        (∃ v, parseHex e = .ok v) ∧ (∃ err, parseAll (e' :: es) = .error err) := by
+  constructor
+  · intro h
+    cases op with
+    | decode t =>
+      refine ⟨t, ?_⟩
+      simp only [validOp, partialWrite, Bool.not_eq_false'] at h
+      split at h
+      · rename_i e e' es hsp
+        simp only [Bool.and_eq_true, decide_eq_true_eq, Bool.not_eq_true'] at h
+        refine ⟨e, e', es, rfl, hsp, by simpa using h.1.1, ?_, ?_⟩
+        · cases hp : parseHex e with
+          | ok v => exact ⟨v, rfl⟩
+          | error err => simp [hp, isOk] at h
+        · cases hq : parseAll (e' :: es) with
+          | ok vs => simp [hq, isOk] at h
+          | error err => exact ⟨err, rfl⟩
+      · cases h
+    | _ => simp [validOp] at h
+  · rintro ⟨t, e, e', es, rfl, hsp, hlen, ⟨v, hp⟩, ⟨err, hq⟩⟩
+    simp [validOp, partialWrite, hsp, hp, hq, isOk, hlen]
+
+theorem validOp_false_size (n : Nat) (op : Op) (h : validOp n op = false) : 64 < n := by
+  rcases Nat.lt_or_ge 64 n with h' | h'
+  · exact h'
+  · rw [validOp_of_le_64 n h' op] at h; cases h
+
+/-- a failing `Decode` inside the refinement returns its error and leaves the archive — words, size
+and memoised text — exactly as it was (count error, bad first entry, any failure for sizes ≤ 64) -/
+theorem failed_decode_unchanged (a : Archive) (hl : a.words.length = nWords a.size) (t : List Char)
+    (hv : validOp a.size (.decode t) = true) (hf : (decodeC a t).2 ≠ none) : (decodeC a t).1 = a :=
+  decodeC_fail_unchanged a hl t (by simpa [validOp] using hv) hf
+
+/-- what EVERY failing `Decode` keeps, the excluded partial writes included: the size, the word
+count, every entry at or above `size` clear (two thirds of `WF`), the last word, and the memoised text.
+So the only damage of a partial write is: some words in front of the bad entry hold the new text's
+values and the memoised text (if any) still describes the old ones -/
+theorem failed_decode_keeps_len_high (a : Archive) (h : WF a) (t : List Char)
+    (hf : (decodeC a t).2 ≠ none) :
+    let a' := (decodeC a t).1
+    a'.size = a.size ∧ a'.words.length = nWords a'.size ∧
+    (∀ i, a'.size ≤ i → bitAt a'.words i = false) ∧ a'.cache = a.cache ∧
+    a'.words.getD (a.words.length - 1) 0#64 = a.words.getD (a.words.length - 1) 0#64 := by
+  obtain ⟨p1, p2, p3, p4, p5⟩ := decodeC_fail_props a h.len t hf
+  refine ⟨p1, by rw [p2, p1, h.len], ?_, p3, p5 _ (by omega)⟩
+  intro i hi
+  rw [p1] at hi
+  rw [p4 i hi, h.high i hi]
+
+/-- … and that damage does not outlive the next successful mutation: after ANY failing `Decode` (partial
+writes included) a successful `SetValue` or a successful `Decode` re-establishes the whole invariant,
+and a successful `Decode` yields exactly what the spec decodes -/
+theorem failed_decode_recovers (a : Archive) (h : WF a) (t : List Char) (hf : (decodeC a t).2 ≠ none) :
+    let a' := (decodeC a t).1
+    (∀ i v, i < a.size → ∃ a'', setValue a' i v = some a'' ∧ WF a'') ∧
+    (∀ t' bs, decode a.size t' = .ok bs →
+      (decodeC a' t').2 = none ∧ WF (decodeC a' t').1 ∧ absBits (decodeC a' t').1 = bs) := by
+  obtain ⟨k1, k2, k3, _, _⟩ := failed_decode_keeps_len_high a h t hf
+  constructor
+  · intro i v hi
+    have hi' : i < (decodeC a t).1.size := by rw [k1]; exact hi
+    exact ⟨_, setValue_some _ i v hi', wf_setValue_raw _ k2 k3 i v hi'⟩
+  · intro t' bs hd
+    exact decodeC_ok_raw_wf _ k2 t' bs (by rw [k1]; exact hd)
 
 /-- `Encoding()` of a well-formed archive is the canonical text of its content, whatever
 the cache holds -/
@@ -117,6 +202,13 @@ theorem compress_decompress (flags other : List Bool) (h1 : 1 ≤ flags.length)
   obtain ⟨d1, _, d3, _⟩ := decodeC_ok b hb2 _ _ hd
   exact ⟨d1, by rw [decompress_spec, d3]⟩
 
+/-- `ModelCompressor.Compress` never panics, and the archive it returns is well-formed, has one
+entry per action and holds exactly the flags (the glue between the archive theorems and the
+model-level ones below) -/
+theorem compress_correct (flags : List Bool) :
+    ∃ a, compress flags = some a ∧ WF a ∧ a.size = flags.length ∧ absBits a = flags :=
+  compress_spec flags
+
 /-! Non-vacuity, sanity and the excluded points (tests, labelled as such). -/
 
 -- 67 entries, entries 64 and 66 set: two words
@@ -144,19 +236,56 @@ set_option maxRecDepth 8000 in
 example : (decodeC (new 70) "1".toList).2 = some .count ∧ (decodeC (new 70) "1:-1".toList).2 = some .syntax ∧
     (decodeC (new 70) "1:10000000000000000".toList).2 = some .range ∧
     (decodeC (new 70) "1:".toList).2 = some .syntax := by decide
--- the excluded point of `refines` (a `Decode` that fails after its first entry): word 0 is already
--- overwritten and the memoised text is kept, so `Encoding()` is stale.  Transcribed Go behaviour,
--- confirmed by the correspondence suite; no crem caller reuses an archive after a failed decode
--- except `SolutionPool.AddSolution`, which ignores the error (see the report for C13/C15).
+-- failing `Decode`s INSIDE `refines`: wrong count, bad first entry, and (one word) any failure; the archive,
+-- its memoised text included, is as before
 set_option maxRecDepth 8000 in
-example : runC (new 70) [.encoding, .decode "1:zz".toList, .encoding, .value 0]
-    = [.text "0:0".toList, .err .syntax, .text "0:0".toList, .bool true] := by decide
+example : (∀ op ∈ [Op.setValue 3 true, .encoding, .decode "zz".toList, .encoding, .value 3, .decode "1:2".toList,
+      .encoding], validOp 13 op = true) ∧
+    runC (new 13) [.setValue 3 true, .encoding, .decode "zz".toList, .encoding, .value 3, .decode "1:2".toList, .encoding]
+      = [.done, .text "8".toList, .err .syntax, .text "8".toList, .bool true, .err .count, .text "8".toList] := by
+  decide
+set_option maxRecDepth 8000 in
+example : validOp 70 (.decode "zz:1".toList) = true ∧ validOp 70 (.decode "1".toList) = true ∧
+    validOp 70 (.decode "1:2:3".toList) = true ∧ validOp 70 (.decode "1:2".toList) = true ∧
+    runC (new 70) [.setValue 69 true, .encoding, .decode "zz:1".toList, .encoding, .value 69]
+      = [.done, .text "0:20".toList, .err .syntax, .text "0:20".toList, .bool true] := by decide
+-- Go `int` indices: -1..-63 are silent no-ops on a non-empty archive (but the memoised text is dropped and
+-- recomputed), <= -64 and anything on the empty archive panic
+set_option maxRecDepth 8000 in
+example : runC (new 70) [.setValueInt 69 true, .encoding, .setValueInt (-1) true, .valueInt (-63), .encoding,
+      .setValueInt (-64) true, .valueInt (-64), .valueInt 70, .valueInt 69]
+    = [.done, .text "0:20".toList, .done, .bool false, .text "0:20".toList, .panic, .panic, .panic, .bool true] ∧
+    runC (new 0) [.setValueInt (-1) true, .valueInt (-1), .valueInt 0] = [.panic, .panic, .panic] := by decide
+-- the excluded point of `refines` (more than 64 entries, right count, first entry good, a later one bad):
+-- word 0 is already overwritten and the memoised text is kept, so `Encoding()` is stale.  Transcribed Go
+-- behaviour, confirmed by the correspondence suite; reachable in crem only through
+-- `SolutionPool.AddSolution`, which ignores the error of `Decode` (see C13), on models with > 64 actions.
+set_option maxRecDepth 8000 in
+example : validOp 70 (.decode "1:zz".toList) = false ∧
+    runC (new 70) [.encoding, .decode "1:zz".toList, .encoding, .value 0]
+      = [.text "0:0".toList, .err .syntax, .text "0:0".toList, .bool true] ∧
+    runA (List.replicate 70 false) [.encoding, .decode "1:zz".toList, .encoding, .value 0]
+      = [.text "0:0".toList, .err .syntax, .text "0:0".toList, .bool false] := by decide
+-- … and the next successful mutation ends it (`failed_decode_recovers`)
+set_option maxRecDepth 8000 in
+example : runC (new 70) [.encoding, .decode "1:zz".toList, .setValue 1 true, .encoding]
+    = [.text "0:0".toList, .err .syntax, .done, .text "3:0".toList] := by decide
 
 end Crem.BoolArchive
 
 namespace Crem.ActionOrder
 
-/-! ## portability: the action order is a function of the data -/
+/-! ## portability: the action order is a function of the data
+
+Hypotheses of this section and where they come from (`assumptions` of `./check C09`):
+* `hk : KeysDistinct g1` (hypothesis H) — decidable (`keysDistinct_iff`); the driver evaluates it on every
+  action list gathered by a real model instance; for the catchment model it is a theorem about crem's
+  derivation from any tables (`Properties/Derive.lean`: `derive_keysDistinct`, and `derive_acts_unique` is
+  the analogue of `action_order_portable` over that model's own action type; audited by `./check C01`);
+* `hg : g1.Perm g2` — the two instances gather the same actions (they load the same scenario), in whatever
+  order their Go maps yield them;
+* `hs1 hs2 h1 h2` — each instance's list is a sorted permutation of what it gathered: the contract of
+  `sort.Sort` (trusted; checked by the suite on every `sort` line and every construction). -/
 
 /-- if no two actions share (planning unit, type), a list has at most one sorted permutation:
 whatever `sort.Sort` does internally, its result is determined -/
@@ -208,6 +337,67 @@ theorem encoding_portable (g1 g2 s1 s2 : List Action) (hk : KeysDistinct g1) (hg
   have he := action_order_portable g1 g2 s1 s2 hk hg hs1 hs2 h1 h2
   subst he
   exact compress_decompress (s1.map act) other (by simp [hs1.length_eq]; omega) (by simp [hl])
+
+/-- **canonical across instances**: two independently built instances of one scenario (gathering orders
+`g1`, `g2`, each sorted by any means into `s1`, `s2`) holding the active sets `act1`, `act2`: their
+`ModelCompressor.Compress(..).Encoding()` texts are equal exactly when the two active sets agree on every
+action.  (`encode_injective`, `encoding_eq_iff` and `action_order_portable` composed.) -/
+theorem canonical_across (g1 g2 s1 s2 : List Action) (hk : KeysDistinct g1) (hg : g1.Perm g2)
+    (hs1 : s1.Perm g1) (hs2 : s2.Perm g2) (h1 : Sorted s1) (h2 : Sorted s2)
+    (act1 act2 : Action → Bool) :
+    ∃ a b, compress (s1.map act1) = some a ∧ compress (s2.map act2) = some b ∧
+      ((encoding a).2 = (encoding b).2 ↔ ∀ x ∈ g1, act1 x = act2 x) ∧
+      (isEquivalentTo a b = true ↔ ∀ x ∈ g1, act1 x = act2 x) := by
+  have he := action_order_portable g1 g2 s1 s2 hk hg hs1 hs2 h1 h2
+  subst he
+  obtain ⟨a, ha1, ha2, ha3, ha4⟩ := compress_spec (s1.map act1)
+  obtain ⟨b, hb1, hb2, hb3, hb4⟩ := compress_spec (s1.map act2)
+  refine ⟨a, b, ha1, hb1, ?_⟩
+  have hs : a.size = b.size := by simp [ha3, hb3]
+  have hiff : absBits a = absBits b ↔ ∀ x ∈ g1, act1 x = act2 x := by
+    rw [ha4, hb4]
+    constructor
+    · intro h x hx
+      exact List.map_inj_left.mp h x (hs1.mem_iff.mpr hx)
+    · intro h
+      exact List.map_inj_left.mpr (fun x hx => h x (hs1.mem_iff.mp hx))
+  rw [(encoding_eq_iff a b ha2 hb2 hs).1, (encoding_eq_iff a b ha2 hb2 hs).2]
+  exact ⟨hiff, hiff⟩
+
+/-- the text-free route (`Saver.deriveSolutionFrom`: the compressed state of the run's instance is
+`Decompress`ed straight into the saver's own, independently built instance): that instance is handed the
+flags of the same actions -/
+theorem compressed_state_portable (g1 g2 s1 s2 : List Action) (hk : KeysDistinct g1) (hg : g1.Perm g2)
+    (hs1 : s1.Perm g1) (hs2 : s2.Perm g2) (h1 : Sorted s1) (h2 : Sorted s2) (act : Action → Bool) :
+    ∃ a, compress (s1.map act) = some a ∧ decompress a = some (s2.map act) := by
+  have he := action_order_portable g1 g2 s1 s2 hk hg hs1 hs2 h1 h2
+  subst he
+  obtain ⟨a, ha1, _, _, ha4⟩ := compress_spec (s1.map act)
+  exact ⟨a, ha1, by rw [decompress_spec, ha4]⟩
+
+/-- non-canonical but valid texts (lower case, leading zeros, stray bits at or above the number of
+actions) are portable as well: whatever text the spec reads as `bits`, decoded into the compressed state
+of any instance and decompressed, hands that instance `bits`, and the instance's own text is then the
+canonical `encode bits` -/
+theorem any_valid_text_portable (other bits : List Bool) (text : List Char)
+    (hd : decode other.length text = .ok bits) :
+    ∃ b, compress other = some b ∧ (decodeC b text).2 = none ∧
+      decompress (decodeC b text).1 = some bits ∧
+      (encoding (decodeC b text).1).2 = encode bits := by
+  obtain ⟨b, hb1, hb2, hb3, _⟩ := compress_spec other
+  obtain ⟨d1, d2, d3, _⟩ := decodeC_ok b hb2 text bits (by rw [hb3]; exact hd)
+  exact ⟨b, hb1, d1, by rw [decompress_spec, d3], by rw [encoding_snd _ d2, d3]⟩
+
+-- non-vacuity of `canonical_across`: two gathering orders of three actions, two different active sets
+example : ∃ a b,
+    compress ((sortActions [⟨2, "R", 0⟩, ⟨1, "H", 1⟩, ⟨1, "G", 2⟩]).map (fun x => x.pu == 1)) = some a ∧
+    compress ((sortActions [⟨1, "G", 2⟩, ⟨2, "R", 0⟩, ⟨1, "H", 1⟩]).map (fun x => x.type == "R")) = some b ∧
+    (encoding a).2 = "3".toList ∧ (encoding b).2 = "4".toList := by
+  refine ⟨_, _, rfl, rfl, ?_, ?_⟩ <;> decide
+-- non-canonical text into a 3-action instance: lower case, leading zero, stray high bits
+set_option maxRecDepth 8000 in
+example : decode 3 "0fd".toList = .ok [true, false, true] ∧ encode [true, false, true] = "5".toList :=
+  ⟨by rfl, by decide⟩
 
 end Crem.BoolArchive
 
